@@ -114,6 +114,9 @@ def verify_sig(keyblob, sigfield, data):
     return any(_verify_sig(keyblob, sigfield, data, mode) for mode in (False, "clamp", "pad"))
 
 
+CERT_SUFFIX = b"-cert-v01@openssh.com"
+
+
 def _verify_sig(keyblob, sigfield, data, mode):
     from cryptography.exceptions import InvalidSignature
     from cryptography.hazmat.primitives import hashes
@@ -123,8 +126,18 @@ def _verify_sig(keyblob, sigfield, data, mode):
     try:
         k = Rd(keyblob, lenient=mode)
         ktype = k.string()
+        if ktype.endswith(CERT_SUFFIX):
+            # OpenSSH certificate (PROTOCOL.certkeys): string type, string nonce, then the public key fields of the
+            # base type.  The certificate is not validated here (paramiko leaves that to the application); what is
+            # checked is that the signature was made by the key the certificate carries.
+            ktype = ktype[:-len(CERT_SUFFIX)]
+            k.string()
         s = Rd(sigfield, lenient=mode)
         sname = s.string()
+        if sname.endswith(CERT_SUFFIX):
+            # a signature labelled with a certificate algorithm name is read as its base algorithm (lenient: the
+            # label does not make a cryptographically valid value invalid for this oracle)
+            sname = sname[:-len(CERT_SUFFIX)]
         sblob = s.string()
         if ktype == b"ssh-rsa":
             e = k.mpint()
@@ -180,16 +193,19 @@ class FenceTimeout(Exception):
 
 
 class Sess:
-    def __init__(self, rng, policy=None, users=None, host_keys=None, victim_kw=None, role="client", setup=None):
+    def __init__(self, rng, policy=None, users=None, host_keys=None, victim_kw=None, role="client", setup=None,
+                 attacker_kw=None):
         self.rec = tap.Recorder()
         self.role = role
         self.server = LogServer(self.rec, policy=dict(policy or {}), users=users)
+        if callable(attacker_kw):
+            attacker_kw = attacker_kw(self.rec)
         if role == "client":
             self.att = attacker.Attacker("client", rng=rng, recorder=self.rec, victim_server=self.server,
-                                         host_keys=host_keys, victim_kw=victim_kw)
+                                         host_keys=host_keys, victim_kw=victim_kw, attacker_kw=attacker_kw)
         else:
             self.att = attacker.Attacker("server", rng=rng, recorder=self.rec, host_keys=host_keys,
-                                         victim_kw=victim_kw)
+                                         victim_kw=victim_kw, attacker_kw=attacker_kw)
         self.victim = self.att.victim
         if setup is not None:
             setup(self)
